@@ -7,6 +7,7 @@ specification: Spec/RouteMatch.lean.
 -/
 import IpcHub.Lemmas.Route
 import IpcHub.Lemmas.PathCanon3
+import IpcHub.Lemmas.PathCanon4
 import IpcHub.Lemmas.TableInst
 import IpcHub.Model.RouteInst
 namespace IpcHub.Props.C17
@@ -22,6 +23,19 @@ theorem c17_source_facts :
     IpcHub.Gen.getOrCreateMatchArg = "path" ∧ IpcHub.Gen.getOrCreateCanonicalises = true ∧
     IpcHub.Gen.getOrCreateCreateArgs = "r.Pattern,r.URL" := by
   decide
+
+/-- The shape of the resolution code itself, regenerated from /repo on every run (compared as
+    text): in `Match` the rule "a path ending in '/' resolves to nothing" stands BEFORE the exact
+    lookup in the map (a directory pattern, which ends in '/', must never be returned as an exact
+    hit); the loop over the map skips patterns that do not match and keeps the longest matching
+    one; `pathMatch` compares a pattern without trailing '/' for equality and tests a directory
+    pattern as a prefix under the guard `len(path) >= n`.  These are the statements the model
+    `matchImpl` / `matchLoop` / `pathMatch` (Model/Route.lean) mirrors line by line. -/
+theorem c17_resolution_shape_facts :
+    IpcHub.Gen.matchSlashRuleFirst = true ∧ IpcHub.Gen.matchLoopKeepsLongest = true ∧
+    IpcHub.Gen.pathMatchBody =
+      "iflen(pattern)==0{returnfalse};n:=len(pattern);ifpattern[n-1]!='/'{returnpattern==path};returnlen(path)>=n&&path[0:n]==pattern" :=
+  ⟨by decide, by decide, rfl⟩
 
 /-- What the specification `resolve` means, clause by clause, for EVERY table with distinct
     patterns and EVERY request path (this is the property statement, in the terms of the
@@ -64,6 +78,26 @@ theorem c17_match_spec (lower : Char → Char) (isSpace : Char → Bool) (urlOk 
     (s : State Route) (p : List Char) (hwf : WF (routeOps (genCfg lower isSpace urlOk)) s) :
     (matchImpl (genCfg lower isSpace urlOk) s p).1 = outOf (resolve (genCfg lower isSpace urlOk) s.l p) :=
   c17_match_spec_generic _ s p hwf (Or.inl c17_source_facts.2.1)
+
+/-- "A path that itself ends in '/' resolves to nothing", in terms of the RAW request: for EVERY
+    well-formed table and EVERY request whose text ends in '/' once the blanks around it are
+    trimmed (whatever "." / ".." / double slashes / upper-case letters it contains — "/cam/",
+    " /CAM/x/../ ", "/"), the specification resolves it to nothing and so does the model of
+    `Match`, even when that very directory pattern is stored in the table. -/
+theorem c17_raw_trailing_slash (lower : Char → Char) (isSpace : Char → Bool) (urlOk : List Char → Bool)
+    (h1 : ∀ c, lower (lower c) = lower c) (h2 : lower '/' = '/') (h3 : isSpace '/' = false)
+    (s : State Route) (p : List Char) (hwf : WF (routeOps (genCfg lower isSpace urlOk)) s)
+    (hp : (PathCanon.trim isSpace p).getLast? = some '/') :
+    resolve (genCfg lower isSpace urlOk) s.l p = none ∧ (matchImpl (genCfg lower isSpace urlOk) s p).1 = .none := by
+  have hc : (canon (genCfg lower isSpace urlOk) p).getLast? = some '/' :=
+    PathCanon.canonicalPath_trailing _ ⟨h1, h2, h3⟩ p hp
+  have hr := resolve_trailing_slash (genCfg lower isSpace urlOk) s.l p hc
+  exact ⟨hr, by rw [c17_match_spec lower isSpace urlOk s p hwf, hr]; rfl⟩
+
+/-- non-vacuity: " /CAM/x/../ " ends in '/' once trimmed, and "/cam/" itself is a stored pattern -/
+example : (PathCanon.trim PathCanon.asciiSpace " /CAM/x/../ ".toList).getLast? = some '/' ∧
+    canon (genCfg PathCanon.asciiLower PathCanon.asciiSpace (fun _ => true)) " /CAM/x/../ ".toList = "/cam/".toList := by
+  decide
 
 /-- non-vacuity of `WF`: a table in which an exact route shadows a directory route, under a
     catch-all "/" -/
@@ -136,6 +170,31 @@ theorem c17_url_join (cfg : Cfg) (p pattern url : List Char)
       obtain ⟨u', hu'⟩ := List.getLast?_eq_some_iff.1 hu
       rw [hu']; simp
     · rfl
+
+/-- "… with exactly one '/' between them", both sides of the joint: the target URL is
+    `base ++ "/" ++ rest` where `base` is the route URL without one trailing '/', and `rest` (the
+    remainder of the canonical path) is non-empty and does not begin with '/'.  If the route URL
+    does not end in "//" (and is not the bare "/"-less empty string) `base` does not end in '/'
+    either, so the '/' at the joint is the only one there. -/
+theorem c17_url_join_exactly_one (cfg : Cfg) (p pattern url : List Char)
+    (hd : pattern.getLast? = some '/') (hpre : isPrefix pattern (canon cfg p) = true)
+    (hnd : (canon cfg p).getLast? ≠ some '/')
+    (hu : ∀ u', url ≠ u' ++ ['/', '/']) :
+    let rest := (canon cfg p).drop pattern.length
+    let base := if url.getLast? = some '/' then url.dropLast else url
+    joinSpec url rest = base ++ '/' :: rest ∧ base.getLast? ≠ some '/' ∧ rest ≠ [] ∧ rest.head? ≠ some '/' := by
+  obtain ⟨_, hne, hhd, _⟩ := c17_url_join cfg p pattern url hd hpre hnd
+  refine ⟨rfl, ?_, hne, hhd⟩
+  split
+  · rename_i hl
+    obtain ⟨u', hu'⟩ := List.getLast?_eq_some_iff.1 hl
+    intro hb
+    rw [hu'] at hb
+    simp only [List.dropLast_concat] at hb
+    obtain ⟨u'', hu''⟩ := List.getLast?_eq_some_iff.1 hb
+    apply hu u''
+    rw [hu', hu'']; simp
+  · rename_i hl; exact hl
 
 /-- non-vacuity of the hypotheses of `c17_url_join` -/
 example :
